@@ -678,6 +678,26 @@ def std_oracle(interp, env, f, args, t, bb, path):
         return v
 
     sa = f.get("self_adt")
+    if f.get("self_ty") in ("usize", "u32", "u64", "u8", "u16", "i32", "i64", "isize", "u128", "i128") and args:
+        xs = [deref(a) for a in args]
+        if all(isinstance(x, int) and not isinstance(x, bool) for x in xs):
+            unsigned = f["self_ty"].startswith("u")
+            if name == "checked_sub" and len(xs) == 2:
+                return NONE if (unsigned and xs[0] < xs[1]) else some(xs[0] - xs[1])
+            if name == "checked_add" and len(xs) == 2:
+                return some(xs[0] + xs[1])
+            if name == "saturating_sub" and len(xs) == 2:
+                return max(0, xs[0] - xs[1]) if unsigned else xs[0] - xs[1]
+            if name in ("saturating_add", "wrapping_add") and len(xs) == 2:
+                return xs[0] + xs[1]
+            if name == "abs_diff" and len(xs) == 2:
+                return abs(xs[0] - xs[1])
+            if name in ("min", "max") and len(xs) == 2:
+                return min(xs) if name == "min" else max(xs)
+            if name == "pow" and len(xs) == 2:
+                return xs[0] ** xs[1]
+            if name == "div_ceil" and len(xs) == 2 and xs[1] != 0:
+                return -(-xs[0] // xs[1])
     if key.startswith("core::ops::arith::") and name in ("add", "sub", "mul", "div", "rem", "neg"):
         xs = [deref(a) for a in args]
         if all(isinstance(x, (int, float)) and not isinstance(x, bool) for x in xs):
